@@ -51,7 +51,7 @@ template <class T> static void run_factor(Choice &c, Ctx &cx)
     FactorProblem<T> P = gen_factor_problem<T>(c, cx, cx.tier, true, false, &G, 8);
     int n = P.n;
     static const int fills[] = {1, 2, 5, 1, 3, 2, 1, 30};
-    int fill = fills[c.below(8)];
+    int fill = fills[c.below(8)]; if (P.stress) fill = 1;
     bool exhaustive = c.chance(cx.tier > 0 ? 64 : 20);
     unsigned char workfill = c.u8();
     cx.hash = fnv1a(c.d, c.consumed(), 0xC08ULL ^ ((uint64_t)Tr<T>::letter << 32));
